@@ -42,6 +42,10 @@ def fails(ctx, path):
         return True
     checks = extra.get('defect', [])
     for idx, kind, arg in checks:
+        if kind == 'raw-contains':
+            if arg not in impl[idx]:
+                return False
+            continue
         line = core.Line(impl[idx])
         if kind in ('events', 'writes', 'out-contains') and not line.structured:
             raise RuntimeError('witness %s: op %d is not a call (%r)' % (path, idx, impl[idx][:60]))
@@ -59,6 +63,9 @@ def fails(ctx, path):
                 return False
         elif kind == 'fs-lacks':
             if any(bytes.fromhex(arg) in c for c in core.parse_fs(impl[idx]).values()):
+                return False
+        elif kind == 'fs-path-contains':
+            if not any(bytes.fromhex(arg) in pth for pth in core.parse_fs(impl[idx])):
                 return False
         elif kind == 'out-contains':
             if bytes.fromhex(arg) not in line.out:
